@@ -17,6 +17,24 @@ for rel, m in sorted(prog.modules.items()):
                 visit(st, prefix + st.name + ".")
     visit(m.tree, "")
     out[rel] = d
+# every identifier of the tree (names, attributes, definitions, parameters, keywords): engine/globalnames.py needs to know which
+# identifiers of a later tree are new
+idents = set()
+for rel, m in prog.modules.items():
+    for n in ast.walk(m.tree):
+        if isinstance(n, ast.Name):
+            idents.add(n.id)
+        elif isinstance(n, ast.Attribute):
+            idents.add(n.attr)
+        elif isinstance(n, (ast.FunctionDef, ast.AsyncFunctionDef, ast.ClassDef)):
+            idents.add(n.name)
+        elif isinstance(n, ast.arg):
+            idents.add(n.arg)
+        elif isinstance(n, ast.keyword) and n.arg:
+            idents.add(n.arg)
+        elif isinstance(n, ast.alias):
+            idents.add((n.asname or n.name).split(".")[-1])
+out["__identifiers__"] = sorted(idents)
 p = os.path.join(os.path.dirname(os.path.dirname(os.path.abspath(__file__))), "isoqlint", "reference_functions.json")
 json.dump(out, open(p, "w"), indent=0, sort_keys=True)
-print("reference snapshot: %d modules, %d functions, %d bytes" % (len(out), sum(len(v) for v in out.values()), os.path.getsize(p)))
+print("reference snapshot: %d modules, %d functions, %d identifiers, %d bytes" % (len(out) - 1, sum(len(v) for k, v in out.items() if k != "__identifiers__"), len(idents), os.path.getsize(p)))
